@@ -165,17 +165,21 @@ theorem corePF_erase (env : Env) (args : List Val) (ws : WS) : ∀ p : PF, coreP
   | .callback => rfl
   | .wrap p => by simpa [PF.erase, corePF] using corePF_erase env args ws p
 
-def Total (env : Env) : Prop := ∀ v, (env.render v).isSome = true
+/-- the hypotheses of the transparency theorem: fmt returns on every value (else finding F13), and the mocked
+    function is not one the console logger calls itself (else finding F14) -/
+structure Total (env : Env) : Prop where
+  fmt : ∀ v, (env.render v).isSome = true
+  indep : env.loggerCalls = false
 
 theorem afterCall_frame (env : Env) (tot : Total env) (args results : List Val) (s : St) :
     (afterCall env args results s).1 = .ret results ∧ (afterCall env args results s).2.ws = s.ws ∧
     (afterCall env args results s).2.inst = s.inst ∧ (afterCall env args results s).2.dead = s.dead := by
-  obtain ⟨a, ha⟩ := sprintV_some_of_total env.render tot args
-  obtain ⟨r, hr⟩ := sprintV_some_of_total env.render tot results
+  obtain ⟨a, ha⟩ := sprintV_some_of_total env.render tot.fmt args
+  obtain ⟨r, hr⟩ := sprintV_some_of_total env.render tot.fmt results
   unfold afterCall
   split
   · exact ⟨rfl, rfl, rfl, rfl⟩
-  · simp only [ha, hr, consolefc]
+  · simp only [ha, hr, consolefc, tot.indep, Bool.false_and, Bool.false_eq_true, if_false]
     split <;> (repeat' constructor)
 
 theorem wrap_forward (env : Env) (args : List Val) (hacc : env.sig.accepts args = true) (g : List Val → Out × St) (s : St) :
@@ -271,7 +275,11 @@ theorem install_frame (env : Env) (s : St) (imp : Fn) (pf : Option PF) :
   unfold install intercept instOf
   cases env.kind <;> cases s.isDebugOpen <;> cases pf <;> simp [Inst.erase, Fn.erase, PF.erase]
 
-theorem applyReq_sim (env : Env) (a b : St) (h : Sim a b) (req : Option (Fn × Option PF)) :
+theorem applyReq_some (env : Env) (tot : Total env) (s : St) (imp : Fn) (pf : Option PF) :
+    applyReq env s (some (imp, pf)) = install env s imp pf := by
+  simp only [applyReq, tot.indep, Bool.false_and, Bool.false_eq_true, if_false]
+
+theorem applyReq_sim (env : Env) (tot : Total env) (a b : St) (h : Sim a b) (req : Option (Fn × Option PF)) :
     Sim (applyReq env a req) (applyReq env b req) := by
   cases req with
   | none => exact h
@@ -279,8 +287,8 @@ theorem applyReq_sim (env : Env) (a b : St) (h : Sim a b) (req : Option (Fn × O
     obtain ⟨imp, pf⟩ := r
     have fa := install_frame env a imp pf
     have fb := install_frame env b imp pf
-    exact ⟨by simp only [applyReq]; rw [fa.1, fb.1, h.ws], by simp only [applyReq]; rw [fa.2.2, fb.2.2],
-           by simp only [applyReq]; rw [fa.2.1, fb.2.1, h.dead]⟩
+    rw [applyReq_some env tot, applyReq_some env tot]
+    exact ⟨by rw [fa.1, fb.1, h.ws], by rw [fa.2.2, fb.2.2], by rw [fa.2.1, fb.2.1, h.dead]⟩
 
 theorem Fn_erase_inj_core (env : Env) (args : List Val) (ws : WS) (f g : Fn) (h : f.erase = g.erase) :
     coreFn env f args ws = coreFn env g args ws := by
@@ -342,15 +350,21 @@ theorem callTarget_sim (env : Env) (tot : Total env) (args : List Val) (hacc : e
 
 theorem step_sim (env : Env) (tot : Total env) (a b : St) (h : Sim a b) (op : Op) :
     (step env a op).2 = (step env b op).2 ∧ Sim (step env a op).1 (step env b op).1 := by
-  have hcfg : ∀ op' : Op, (step env a op' = (applyReq env { a with ws := (cfgStep env a.ws op').1 } (cfgStep env a.ws op').2.1, (cfgStep env a.ws op').2.2)) →
-      (step env b op' = (applyReq env { b with ws := (cfgStep env b.ws op').1 } (cfgStep env b.ws op').2.1, (cfgStep env b.ws op').2.2)) →
+  have hcfg : ∀ op' : Op,
+      (step env a op' = (applyReq env { a with ws := (cfgStep env a.ws op').1 } (cfgStep env a.ws op').2.1,
+        if (applyReq env { a with ws := (cfgStep env a.ws op').1 } (cfgStep env a.ws op').2.1).dead then "->CRASH" else (cfgStep env a.ws op').2.2)) →
+      (step env b op' = (applyReq env { b with ws := (cfgStep env b.ws op').1 } (cfgStep env b.ws op').2.1,
+        if (applyReq env { b with ws := (cfgStep env b.ws op').1 } (cfgStep env b.ws op').2.1).dead then "->CRASH" else (cfgStep env b.ws op').2.2)) →
       (step env a op').2 = (step env b op').2 ∧ Sim (step env a op').1 (step env b op').1 := by
     intro op' ea eb
     rw [ea, eb, h.ws]
-    refine ⟨rfl, ?_⟩
-    show Sim (applyReq env _ _) (applyReq env _ _)
-    apply applyReq_sim
-    exact ⟨rfl, h.inst, h.dead⟩
+    have hs : Sim (applyReq env { a with ws := (cfgStep env b.ws op').1 } (cfgStep env b.ws op').2.1)
+                  (applyReq env { b with ws := (cfgStep env b.ws op').1 } (cfgStep env b.ws op').2.1) := by
+      apply applyReq_sim env tot
+      exact ⟨rfl, h.inst, h.dead⟩
+    refine ⟨?_, hs⟩
+    show (if _ then _ else _) = (if _ then _ else _)
+    rw [hs.dead]
   cases op with
   | apply cb => exact hcfg _ rfl rfl
   | ret vals => exact hcfg _ rfl rfl
@@ -390,18 +404,18 @@ theorem run_sim (env : Env) (tot : Total env) : ∀ (ops : List Op) (a b : St), 
       have ih := run_sim env tot ops _ _ hs.2
       exact ⟨by rw [hs.1, ih.1], ih.2⟩
 
-theorem applyReq_dead (env : Env) (s : St) (req : Option (Fn × Option PF)) : (applyReq env s req).dead = s.dead := by
+theorem applyReq_dead (env : Env) (tot : Total env) (s : St) (req : Option (Fn × Option PF)) : (applyReq env s req).dead = s.dead := by
   cases req with
   | none => rfl
-  | some r => obtain ⟨imp, pf⟩ := r; exact (install_frame env s imp pf).2.1
+  | some r => obtain ⟨imp, pf⟩ := r; rw [applyReq_some env tot]; exact (install_frame env s imp pf).2.1
 
 /-- with a total renderer no operation kills the process -/
 theorem step_dead (env : Env) (tot : Total env) (s : St) (op : Op) : (step env s op).1.dead = s.dead := by
   cases op with
-  | apply cb => exact applyReq_dead env _ _
-  | ret vals => exact applyReq_dead env _ _
-  | «when» pats vals => exact applyReq_dead env _ _
-  | rets seq => exact applyReq_dead env _ _
+  | apply cb => exact applyReq_dead env tot _ _
+  | ret vals => exact applyReq_dead env tot _ _
+  | «when» pats vals => exact applyReq_dead env tot _ _
+  | rets seq => exact applyReq_dead env tot _ _
   | cancel => rfl
   | dbg d => cases d <;> rfl
   | call args =>
